@@ -158,6 +158,17 @@ CHECKS = {
             'A generated corpus is compiled under 5 (thorough 24) hash seeds in child interpreters and all SHA-256 '
             'digests of trees, JSON and pysnmp texts and module summaries must agree.',
             'Fresh instances are the reference; "all hash seeds" is sampled.', '4/C12'),
+    'C20': ('exploration',
+            'Hypothesis on-disk worlds + argv for mibdump and mibcopy run as real subprocesses; oracle = exit code / '
+            'parsed report / directory diff consistency, model expectations, and order independence over all permutations',
+            'mibdump: usage errors exit 64; exit 0 iff nothing is reported missing or failed; report categories are '
+            'disjoint and cover the closure; the destination afterwards is exactly the pre-existing files plus the '
+            'modules reported created/borrowed (plus index), unchanged under --dry-run / --no-mib-writes. mibcopy: the '
+            'destination holds, per module name seen, a copy with the maximal latest revision under the canonical '
+            'name, nothing else, and the same bytes for every visiting order of the sources (all permutations of up '
+            'to 4 files) when the newest copy is unique.',
+            'Runs use explicit local sources/borrowers (defaults are network URLs); ~800 subprocess runs per quick run.',
+            '4/C20'),
     'C11': ('exploration',
             'exhaustive prefix enumeration of generated files + Hypothesis token mutants/noise; oracle = exception '
             'type, completeness by the renderer span table, exact line of never-viable tokens; atheris in thorough',
